@@ -70,6 +70,13 @@ def build(w, graph, keys_differ=False):
             k0 = next(iter(st))
             mfa.f["stocks"] = {(first_flow if k == k0 else k): v for k, v in st.items()}
         return mfa
+    if keys_differ == "suffix":     # two stocks whose names differ by a trailing word that export code also uses as a file-name suffix
+        st = list(mfa.f["stocks"].values())
+        names = ["in use", "in use stock", "in use inflow", "in use_stock"][:len(st)]
+        for n_, s_ in zip(names, st):
+            s_.f["name"] = n_
+        mfa.f["stocks"] = dict(zip(names, st))
+        return mfa
     if keys_differ:     # a hand-assembled system: dictionary keys are not the objects' own names
         flows = mfa.f["flows"]
         mfa.f["flows"] = {f"key {i}: {k}": v for i, (k, v) in enumerate(flows.items())}
@@ -100,7 +107,7 @@ def dict_cases(prog, rep, fails):
     rid = "C19.dictionary"
     fn = prog.func(MOD, "convert_to_dict")
     for gi, graph in enumerate(GRAPHS):
-        for keys_differ in ((False, True, "shared") if graph[2] else (False, True)):
+        for keys_differ in ((False, True, "shared", "suffix") if graph[2] else (False, True)):
             for typ in ("numpy", "pandas", "default"):
                 w = World(prog)
                 it = w.it
@@ -170,7 +177,7 @@ def valid_name(it, prog, s):
 
 def file_cases(prog, rep, fails):
     for gi, graph in enumerate(GRAPHS):
-        for keys_differ in ((False, True, "shared") if graph[2] else (False, True)):
+        for keys_differ in ((False, True, "shared", "suffix") if graph[2] else (False, True)):
             # pickle
             w = World(prog)
             it = w.it
